@@ -9,7 +9,10 @@ import (
 	"fmt"
 	"os"
 	"path/filepath"
+	"strconv"
 	"strings"
+
+	"verifharness/vh"
 )
 
 // SoilTxt renders the soil profile in the fixed-width layout LoadSoil reads (soil.go:97-194):
@@ -419,4 +422,26 @@ func CopyParameterFolderAs(root, repo, name string) error {
 		}
 	}
 	return nil
+}
+
+// MissingMeanTemperature writes the configured none-value into the mean-temperature column of isolated
+// interior days (never two neighbours, never the first or last day of the series): an optional value that
+// the readers of the layouts which carry the column replace by the mean of the adjacent days.
+func (p *Project) MissingMeanTemperature(r *vh.Rng, days int) []Date {
+	none, err := strconv.ParseFloat(strings.Trim(p.Cfg["WeatherNoneValue"], "\""), 64)
+	if err != nil || len(p.Weather) < 10 {
+		return nil
+	}
+	var out []Date
+	taken := map[int]bool{}
+	for k := 0; k < days; k++ {
+		i := 2 + r.Intn(len(p.Weather)-4)
+		if taken[i-1] || taken[i] || taken[i+1] {
+			continue
+		}
+		taken[i] = true
+		p.Weather[i].Tavg = none
+		out = append(out, p.Weather[i].Date)
+	}
+	return out
 }
